@@ -5,9 +5,9 @@ Core Lean only (the driver links this file).
 What is mirrored (embedded/store):
 * `ongoing_tx.go`   `snap()` (one snapshot per index, acquired lazily, kept in acquisition order),
                     `set`, `Delete`, `GetWithFilters`, `GetWithPrefixAndFilters`, `MarkPrefixScanned`,
-                    `checkPreconditions` (loop over the tx's snapshots, the early `return nil`
-                    when `txSnap.Ts() > LastPrecommittedTxID()`, expected gets / prefix gets /
-                    readers / prefix fingerprints),
+                    `checkPreconditions` (loop over the tx's snapshots, a snapshot with
+                    `txSnap.Ts() > LastPrecommittedTxID()` is skipped with `continue`, expected gets /
+                    prefix gets / readers / prefix fingerprints),
 * `ongoing_tx_keyreader.go`  `ongoingTxKeyReader.ReadBetween` (every raw row is recorded, filters and
                     offset are applied by the wrapper, `skipped` is NOT cleared by `Reset`),
 * `immustore.go`    `precommit` : under `s.mutex`  wait-for-indexing(up to the last precommitted tx) ;
@@ -377,11 +377,13 @@ def valSnap (cfg : Cfg) (look : Bytes → Option Ver) (rs : ReadSet) (pfx : Byte
   (rs.readers.all fun e => !hasPrefix e.spec.pfx pfx || valReader cfg look e) &&
   (rs.fps.all fun e => !hasPrefix e.spec.pfx pfx || valFP cfg look e)
 
-/-- the loop over `tx.snapshots` including the early `return nil`. `true` = no read conflict. -/
+/-- the loop over `tx.snapshots`: a snapshot with `Ts() > LastPrecommittedTxID()` (taken at the last
+precommitted tx and written to) is skipped (`continue`), every other one is validated.
+`true` = no read conflict. -/
 def checkSnaps (cfg : Cfg) (look : Bytes → Option Ver) (lastPre : Nat) (rs : ReadSet) : List Snap → Bool
   | [] => true
   | s :: rest =>
-    if s.ts > lastPre then true
+    if s.ts > lastPre then checkSnaps cfg look lastPre rs rest
     else if valSnap cfg look rs s.pfx then checkSnaps cfg look lastPre rs rest
     else false
 
